@@ -76,7 +76,12 @@ impl Source {
             }
 
             if interpret_syntax && !self.in_line_comment {
-                if trimmed.starts_with('}') && self.s.ends_with("  ") {
+                // Only remove indentation: if the current line already has
+                // other text on it the trailing spaces belong to that text.
+                if trimmed.starts_with('}')
+                    && self.s.ends_with("  ")
+                    && self.s.rsplit('\n').next().unwrap().trim().is_empty()
+                {
                     self.s.pop();
                     self.s.pop();
                 }
